@@ -144,3 +144,5 @@ package lexer
 //@ ensures[C20.tok.linetext] (result0.Type != "EOF" ==> result0.StartPosition.Char <= clen(l)) && (result0.Type == "EOF" && clen(l) > 0 ==> result0.StartPosition.Char >= 1)
 //@ ensures[C20.tok.eof] result1 == nil && result0.Type != "EOF" ==> result0.StartPosition.Char < clen(l)
 //@ ensures[C20.cmt] result1 == nil && result0.Type == "/" && 0 <= result0.EndPosition.Char && result0.EndPosition.Char + 1 < clen(l) ==> l.characters[result0.EndPosition.Char + 1] != '*' && l.characters[result0.EndPosition.Char + 1] != '/'
+
+//@ scan[C09.globals.lexer] C09 pkgglobals github.com/risor-io/risor/lexer:
